@@ -686,9 +686,14 @@ type maxQos map[string]*struct {
 
 // deliverHandler controllers the delivery behaviors according to the DeliveryMode config. (overlap or onlyonce)
 type deliverHandler struct {
-	fn      subscription.IterateFn
-	sl      sharedList
-	mq      maxQos
+	fn subscription.IterateFn
+	sl sharedList
+	mq maxQos
+	// ol collects the matched non-shared subscriptions in overlap mode.
+	ol []struct {
+		clientID string
+		sub      *gmqtt.Subscription
+	}
 	matched bool
 	now     time.Time
 	msg     *gmqtt.Message
@@ -720,10 +725,13 @@ func newDeliverHandler(mode string, srcClientID string, msg *gmqtt.Message, now 
 		return iterateFn(clientID, sub)
 	}
 	if mode == Overlap {
+		// Do not add to the queue while iterating: the subscription store is read-locked here and
+		// a dropped message makes the queue call back into the store (via the stats manager).
 		iterateFn = func(clientID string, sub *gmqtt.Subscription) bool {
-			if qs := srv.queueStore[clientID]; qs != nil {
-				srv.addMsgToQueueLocked(now, clientID, msg.Copy(), sub, []uint32{sub.ID}, qs)
-			}
+			d.ol = append(d.ol, struct {
+				clientID string
+				sub      *gmqtt.Subscription
+			}{clientID: clientID, sub: sub})
 			return true
 		}
 	} else {
@@ -747,6 +755,12 @@ func newDeliverHandler(mode string, srcClientID string, msg *gmqtt.Message, now 
 }
 
 func (d *deliverHandler) flush() {
+	// For overlap mode, send one message per matched non-shared subscription.
+	for _, v := range d.ol {
+		if qs := d.srv.queueStore[v.clientID]; qs != nil {
+			d.srv.addMsgToQueueLocked(d.now, v.clientID, d.msg.Copy(), v.sub, []uint32{v.sub.ID}, qs)
+		}
+	}
 	// shared subscription
 	// TODO enable customize balance strategy of shared subscription
 	for _, v := range d.sl {
